@@ -476,3 +476,131 @@ func rulePathBytesPassThrough(c *Ctx) {
 
 // a local string variable compared with "" (variables are named by type and ordinal, see allocName)
 var localStringEmpty = regexp.MustCompile(`^local:string(#\d+)? == ""$`)
+
+// ruleParserCursor (C11, C12, C14): the path parser's cursor (parser.s) only ever moves forward by dropping a prefix
+// of itself, and the null reverse-path "<>" is recognised as a PREFIX of the argument: what follows it (the ESMTP
+// parameters of a bounce) stays in the cursor, untouched, for parseArgs. A cursor trimmed at its far end, replaced by
+// something else, or a null path accepted only when nothing follows changes which parameters the backend sees.
+func ruleParserCursor(c *Ctx) {
+	R := c.R
+	R.Rule("R-parser-cursor", "E4 value shape + E3 edge-feasibility", "parser.s is only replaced by a suffix of itself (p.s[k:], TrimPrefix/CutPrefix of p.s); the null reverse-path is taken exactly when the argument starts with \"<>\" and leaves the rest for the parameters", 5)
+	n := 0
+	for _, f := range c.P.AllFuncs() {
+		if !strings.HasPrefix(funcName(f), "(*parser).") {
+			continue
+		}
+		allInstrs(f, func(in ssa.Instruction) {
+			fld, _, v := storedField(in)
+			if fld == nil || fld.Name() != "s" {
+				return
+			}
+			n++
+			ok, why := false, ""
+			switch x := stripConv(v).(type) {
+			case *ssa.Slice:
+				ok = describe(x.X) == "parser.s" && x.High == nil && x.Max == nil
+				why = "slice of " + describe(x.X) + " with an upper bound or of another value"
+			case *ssa.Call:
+				if cal := staticCallee(&x.Call); cal != nil && cal.Pkg != nil && cal.Pkg.Pkg.Path() == "strings" && cal.Name() == "TrimPrefix" {
+					_, isConst := constString(x.Call.Args[1])
+					ok = describe(x.Call.Args[0]) == "parser.s" && isConst
+				}
+				why = describe(v)
+			case *ssa.Extract:
+				if call, isCall := x.Tuple.(*ssa.Call); isCall && x.Index == 0 {
+					if cal := staticCallee(&call.Call); cal != nil && cal.Pkg != nil && cal.Pkg.Pkg.Path() == "strings" && cal.Name() == "CutPrefix" {
+						ok = describe(call.Call.Args[0]) == "parser.s"
+					}
+				}
+				why = describe(v)
+			default:
+				why = describe(v)
+			}
+			R.Ob(c.siteKey(in, "cursor advances to a suffix of itself"), c.P.InstrPos(in), ok, "parser.s is set to "+why+": not the remainder of the cursor after a consumed prefix")
+		})
+	}
+	R.Ob("parser/cursor stores found", "-", n >= 3, fmt.Sprintf("%d stores to parser.s found in the parser's methods", n))
+
+	f := c.A.Func("(*parser).parseReversePath")
+	if f == nil {
+		return
+	}
+	H := `strings.HasPrefix(parser.s,"<>") == true`
+	hasTest := false
+	allInstrs(f, func(in ssa.Instruction) {
+		if cc := callCommon(in); cc != nil {
+			if cal := staticCallee(cc); cal != nil && cal.Pkg != nil && cal.Pkg.Pkg.Path() == "strings" && cal.Name() == "HasPrefix" && len(cc.Args) == 2 && describe(cc.Args[0]) == "parser.s" {
+				if k, ok := constString(cc.Args[1]); ok && k == "<>" {
+					hasTest = true
+				}
+			}
+		}
+	})
+	if !hasTest {
+		R.Und("(*parser).parseReversePath/null path recognised as a prefix", c.P.Pos(f.Pos()), "no strings.HasPrefix(p.s, \"<>\") test found: how the null reverse-path is recognised is not decided (a test for equality refuses \"<> PARAM=...\", the reverse-path of every bounce that carries parameters)")
+		return
+	}
+	nNull := 0
+	allInstrs(f, func(in ssa.Instruction) {
+		if cc := callCommon(in); cc != nil {
+			if cal := staticCallee(cc); cal != nil && funcName(cal) == "(*parser).parsePath" {
+				c.obUnreach("ordinary path parser", in, H)
+			}
+		}
+	})
+	for _, a := range acceptingReturns(f) {
+		r := a.(*ssa.Return)
+		if k, ok := constString(returnedValues(r)[0]); ok && k == "" {
+			nNull++
+			c.obFactMatch("null path only for a \"<>\" prefix", a, `^strings\.HasPrefix\(parser\.s,"<>"\) == true$`, "the null reverse-path is returned although the argument was not seen to start with \"<>\"")
+			// on the way to this return the cursor drops exactly that prefix
+			dropped := false
+			for _, st := range allStoresTo(f, "s") {
+				if reachesInstr(st, a) {
+					d := describe(st.(*ssa.Store).Val)
+					if d == `strings.TrimPrefix(parser.s,"<>")` || d == `strings.CutPrefix(parser.s,"<>")#0` {
+						dropped = true
+					}
+					if sl, isSl := stripConv(st.(*ssa.Store).Val).(*ssa.Slice); isSl && sl.High == nil && describe(sl.X) == "parser.s" {
+						if k, ok := constInt(sl.Low); ok && k == 2 {
+							dropped = true
+						}
+					}
+				}
+			}
+			R.Ob(c.siteKey(a, "null path consumes exactly \"<>\""), c.P.InstrPos(a), dropped, "no store on the way to the null-path return drops the two octets \"<>\" from the cursor (TrimPrefix / p.s[2:])")
+		}
+	}
+	R.Ob("(*parser).parseReversePath/has a null-path exit", c.P.Pos(f.Pos()), nNull >= 1, "no accepting return with an empty path")
+}
+
+// allStoresTo: stores in f to a struct field of that name.
+func allStoresTo(f *ssa.Function, field string) []ssa.Instruction {
+	var out []ssa.Instruction
+	allInstrs(f, func(in ssa.Instruction) {
+		if fld, _, _ := storedField(in); fld != nil && fld.Name() == field {
+			out = append(out, in)
+		}
+	})
+	return out
+}
+
+// reachesInstr: can control flow from a to b (same function; same block: a before b)?
+func reachesInstr(a, b ssa.Instruction) bool {
+	if a.Block() == b.Block() {
+		for _, x := range a.Block().Instrs {
+			if x == a {
+				return true
+			}
+			if x == b {
+				break
+			}
+		}
+	}
+	for _, s := range a.Block().Succs {
+		if s == b.Block() || reachableFrom(s, nil)[b.Block()] {
+			return true
+		}
+	}
+	return false
+}
